@@ -891,6 +891,13 @@ impl Xot {
                 "Cannot add children to non-element and non-document node".into(),
             ));
         }
+        // a node cannot be moved under itself or under one of its own
+        // descendants; refuse this here, before anything is modified
+        if self.ancestors(parent).any(|ancestor| ancestor == child) {
+            return Err(Error::InvalidOperation(
+                "Cannot move node under itself or its own descendant".into(),
+            ));
+        }
         match self.value_type(child) {
             ValueType::Document => {
                 return Err(Error::InvalidOperation("Cannot move document node".into()));
